@@ -77,8 +77,363 @@ fn k2c_get_var_assign_20_digits() {
     while i < 20 { kani::assume(d[i] >= b'0' && d[i] <= b'9'); i += 1; }
     let s = unsafe { core::str::from_utf8_unchecked(&d) };
     let number = Token { kind: TokenKind::Number, value: Rc::from(s), position: pos0() };
-    let chr = Item::new(ParseElement::Matrix(Modifiers::new(), None), pos0());
+    let chr = Item::new(ParseElement::Matrix(Modifiers { nodes: [None; 8], feats: [None; 26], suprs: SupraSegs::new() }, None), pos0());
     let mut p = Parser::new(vec![tok(TokenKind::Eol, 0)], 0, 0);
     let it = p.get_var_assign(number, &chr);
     assert!(matches!(it.kind, ParseElement::Matrix(_, Some(_))));
+}
+
+use crate::seg::verif_kani::{any_bin_nodes, any_bin_feats};
+
+//% props=C12 tier=quick kind=P timeout=900 pair=Parser::join_group_with_params clause="`G:[params]`: every parameter named in the matrix overrides the group's value, every slot the matrix leaves open keeps the group's value"
+#[kani::proof]
+#[kani::unwind(28)]
+fn k12_join_group_with_params() {
+    let g = Modifiers { nodes: any_bin_nodes(), feats: any_bin_feats(), suprs: SupraSegs { stress: [any_supra_slot(), any_supra_slot()], length: [any_supra_slot(), any_supra_slot()], tone: kani::any() } };
+    let q = Modifiers { nodes: any_bin_nodes(), feats: any_bin_feats(), suprs: SupraSegs { stress: [any_supra_slot(), any_supra_slot()], length: [any_supra_slot(), any_supra_slot()], tone: kani::any() } };
+    let mut p = Parser::new(vec![tok(TokenKind::Eol, 0)], 0, 0);
+    let r = p.join_group_with_params(Item::new(ParseElement::Matrix(g.clone(), None), pos0()), Item::new(ParseElement::Matrix(q.clone(), None), pos0()));
+    match r.kind {
+        ParseElement::Matrix(m, None) => {
+            let mut i = 0;
+            while i < 26 { assert!(m.feats[i] == if q.feats[i].is_some() { q.feats[i] } else { g.feats[i] }); i += 1; }
+            let mut k = 0;
+            while k < 8 { assert!(m.nodes[k] == if q.nodes[k].is_some() { q.nodes[k] } else { g.nodes[k] }); k += 1; }
+            let mut j = 0;
+            while j < 2 {
+                assert!(m.suprs.stress[j] == if q.suprs.stress[j].is_some() { q.suprs.stress[j] } else { g.suprs.stress[j] });
+                assert!(m.suprs.length[j] == if q.suprs.length[j].is_some() { q.suprs.length[j] } else { g.suprs.length[j] });
+                j += 1;
+            }
+            assert!(m.suprs.tone == if q.suprs.tone.is_some() { q.suprs.tone } else { g.suprs.tone });
+        }
+        _ => assert!(false),
+    }
+}
+
+// ==== GENERATED by tools/gen_table_harnesses.py -- do not edit below ====
+const P: Option<ModKind> = Some(ModKind::Binary(BinMod::Positive));
+const N: Option<ModKind> = Some(ModKind::Binary(BinMod::Negative));
+
+//% props=C12 tier=quick kind=P timeout=900 pair=Parser::group_to_matrix clause="capital A is not a documented group and is rejected"
+#[kani::proof]
+#[kani::unwind(30)]
+fn k12_rule_group_A() {
+    let p = Parser::new(vec![tok(TokenKind::Eol, 0)], kani::any(), kani::any());
+    let t = Token { kind: TokenKind::Group, value: Rc::from("A"), position: Position::new(kani::any(), kani::any(), 0, 1) };
+    let r = p.group_to_matrix(&t);
+    assert!(matches!(r, Err(RuleSyntaxError::UnknownGrouping(_))), "undocumented capital is not a group");
+}
+
+//% props=C12 tier=quick kind=P timeout=900 pair=Parser::group_to_matrix clause="capital B is not a documented group and is rejected"
+#[kani::proof]
+#[kani::unwind(30)]
+fn k12_rule_group_B() {
+    let p = Parser::new(vec![tok(TokenKind::Eol, 0)], kani::any(), kani::any());
+    let t = Token { kind: TokenKind::Group, value: Rc::from("B"), position: Position::new(kani::any(), kani::any(), 0, 1) };
+    let r = p.group_to_matrix(&t);
+    assert!(matches!(r, Err(RuleSyntaxError::UnknownGrouping(_))), "undocumented capital is not a group");
+}
+
+//% props=C12 tier=quick kind=P timeout=900 pair=Parser::group_to_matrix clause="group letter C == -Syllabic"
+#[kani::proof]
+#[kani::unwind(30)]
+fn k12_rule_group_C() {
+    let p = Parser::new(vec![tok(TokenKind::Eol, 0)], kani::any(), kani::any());
+    let t = Token { kind: TokenKind::Group, value: Rc::from("C"), position: Position::new(kani::any(), kani::any(), 0, 1) };
+    let r = p.group_to_matrix(&t);
+    let want: [Option<ModKind>; 26] = [None, None, N, None, None, None, None, None, None, None, None, None, None, None, None, None, None, None, None, None, None, None, None, None, None, None];
+    match r {
+        Ok(Item { kind: ParseElement::Matrix(m, None), .. }) => {
+            assert!(m.feats == want, "group letter = exactly the matrix the manual tabulates (every one of the 26 slots)");
+            assert!(m.nodes == [None; 8] && m.suprs == SupraSegs::new(), "a group names no node and no suprasegmental");
+        }
+        _ => assert!(false, "documented group letter must be accepted"),
+    }
+}
+
+//% props=C12 tier=quick kind=P timeout=900 pair=Parser::group_to_matrix clause="capital D is not a documented group and is rejected"
+#[kani::proof]
+#[kani::unwind(30)]
+fn k12_rule_group_D() {
+    let p = Parser::new(vec![tok(TokenKind::Eol, 0)], kani::any(), kani::any());
+    let t = Token { kind: TokenKind::Group, value: Rc::from("D"), position: Position::new(kani::any(), kani::any(), 0, 1) };
+    let r = p.group_to_matrix(&t);
+    assert!(matches!(r, Err(RuleSyntaxError::UnknownGrouping(_))), "undocumented capital is not a group");
+}
+
+//% props=C12 tier=quick kind=P timeout=900 pair=Parser::group_to_matrix clause="capital E is not a documented group and is rejected"
+#[kani::proof]
+#[kani::unwind(30)]
+fn k12_rule_group_E() {
+    let p = Parser::new(vec![tok(TokenKind::Eol, 0)], kani::any(), kani::any());
+    let t = Token { kind: TokenKind::Group, value: Rc::from("E"), position: Position::new(kani::any(), kani::any(), 0, 1) };
+    let r = p.group_to_matrix(&t);
+    assert!(matches!(r, Err(RuleSyntaxError::UnknownGrouping(_))), "undocumented capital is not a group");
+}
+
+//% props=C12 tier=quick kind=P timeout=900 pair=Parser::group_to_matrix clause="group letter F == +Consonantal -Sonorant -Syllabic -Approximant +Continuant"
+#[kani::proof]
+#[kani::unwind(30)]
+fn k12_rule_group_F() {
+    let p = Parser::new(vec![tok(TokenKind::Eol, 0)], kani::any(), kani::any());
+    let t = Token { kind: TokenKind::Group, value: Rc::from("F"), position: Position::new(kani::any(), kani::any(), 0, 1) };
+    let r = p.group_to_matrix(&t);
+    let want: [Option<ModKind>; 26] = [P, N, N, P, N, None, None, None, None, None, None, None, None, None, None, None, None, None, None, None, None, None, None, None, None, None];
+    match r {
+        Ok(Item { kind: ParseElement::Matrix(m, None), .. }) => {
+            assert!(m.feats == want, "group letter = exactly the matrix the manual tabulates (every one of the 26 slots)");
+            assert!(m.nodes == [None; 8] && m.suprs == SupraSegs::new(), "a group names no node and no suprasegmental");
+        }
+        _ => assert!(false, "documented group letter must be accepted"),
+    }
+}
+
+//% props=C12 tier=quick kind=P timeout=900 pair=Parser::group_to_matrix clause="group letter G == -Consonantal +Sonorant -Syllabic"
+#[kani::proof]
+#[kani::unwind(30)]
+fn k12_rule_group_G() {
+    let p = Parser::new(vec![tok(TokenKind::Eol, 0)], kani::any(), kani::any());
+    let t = Token { kind: TokenKind::Group, value: Rc::from("G"), position: Position::new(kani::any(), kani::any(), 0, 1) };
+    let r = p.group_to_matrix(&t);
+    let want: [Option<ModKind>; 26] = [N, P, N, None, None, None, None, None, None, None, None, None, None, None, None, None, None, None, None, None, None, None, None, None, None, None];
+    match r {
+        Ok(Item { kind: ParseElement::Matrix(m, None), .. }) => {
+            assert!(m.feats == want, "group letter = exactly the matrix the manual tabulates (every one of the 26 slots)");
+            assert!(m.nodes == [None; 8] && m.suprs == SupraSegs::new(), "a group names no node and no suprasegmental");
+        }
+        _ => assert!(false, "documented group letter must be accepted"),
+    }
+}
+
+//% props=C12 tier=quick kind=P timeout=900 pair=Parser::group_to_matrix clause="capital H is not a documented group and is rejected"
+#[kani::proof]
+#[kani::unwind(30)]
+fn k12_rule_group_H() {
+    let p = Parser::new(vec![tok(TokenKind::Eol, 0)], kani::any(), kani::any());
+    let t = Token { kind: TokenKind::Group, value: Rc::from("H"), position: Position::new(kani::any(), kani::any(), 0, 1) };
+    let r = p.group_to_matrix(&t);
+    assert!(matches!(r, Err(RuleSyntaxError::UnknownGrouping(_))), "undocumented capital is not a group");
+}
+
+//% props=C12 tier=quick kind=P timeout=900 pair=Parser::group_to_matrix clause="capital I is not a documented group and is rejected"
+#[kani::proof]
+#[kani::unwind(30)]
+fn k12_rule_group_I() {
+    let p = Parser::new(vec![tok(TokenKind::Eol, 0)], kani::any(), kani::any());
+    let t = Token { kind: TokenKind::Group, value: Rc::from("I"), position: Position::new(kani::any(), kani::any(), 0, 1) };
+    let r = p.group_to_matrix(&t);
+    assert!(matches!(r, Err(RuleSyntaxError::UnknownGrouping(_))), "undocumented capital is not a group");
+}
+
+//% props=C12 tier=quick kind=P timeout=900 pair=Parser::group_to_matrix clause="capital J is not a documented group and is rejected"
+#[kani::proof]
+#[kani::unwind(30)]
+fn k12_rule_group_J() {
+    let p = Parser::new(vec![tok(TokenKind::Eol, 0)], kani::any(), kani::any());
+    let t = Token { kind: TokenKind::Group, value: Rc::from("J"), position: Position::new(kani::any(), kani::any(), 0, 1) };
+    let r = p.group_to_matrix(&t);
+    assert!(matches!(r, Err(RuleSyntaxError::UnknownGrouping(_))), "undocumented capital is not a group");
+}
+
+//% props=C12 tier=quick kind=P timeout=900 pair=Parser::group_to_matrix clause="capital K is not a documented group and is rejected"
+#[kani::proof]
+#[kani::unwind(30)]
+fn k12_rule_group_K() {
+    let p = Parser::new(vec![tok(TokenKind::Eol, 0)], kani::any(), kani::any());
+    let t = Token { kind: TokenKind::Group, value: Rc::from("K"), position: Position::new(kani::any(), kani::any(), 0, 1) };
+    let r = p.group_to_matrix(&t);
+    assert!(matches!(r, Err(RuleSyntaxError::UnknownGrouping(_))), "undocumented capital is not a group");
+}
+
+//% props=C12 tier=quick kind=P timeout=900 pair=Parser::group_to_matrix clause="group letter L == +Consonantal +Sonorant -Syllabic +Approximant"
+#[kani::proof]
+#[kani::unwind(30)]
+fn k12_rule_group_L() {
+    let p = Parser::new(vec![tok(TokenKind::Eol, 0)], kani::any(), kani::any());
+    let t = Token { kind: TokenKind::Group, value: Rc::from("L"), position: Position::new(kani::any(), kani::any(), 0, 1) };
+    let r = p.group_to_matrix(&t);
+    let want: [Option<ModKind>; 26] = [P, P, N, None, P, None, None, None, None, None, None, None, None, None, None, None, None, None, None, None, None, None, None, None, None, None];
+    match r {
+        Ok(Item { kind: ParseElement::Matrix(m, None), .. }) => {
+            assert!(m.feats == want, "group letter = exactly the matrix the manual tabulates (every one of the 26 slots)");
+            assert!(m.nodes == [None; 8] && m.suprs == SupraSegs::new(), "a group names no node and no suprasegmental");
+        }
+        _ => assert!(false, "documented group letter must be accepted"),
+    }
+}
+
+//% props=C12 tier=quick kind=P timeout=900 pair=Parser::group_to_matrix clause="capital M is not a documented group and is rejected"
+#[kani::proof]
+#[kani::unwind(30)]
+fn k12_rule_group_M() {
+    let p = Parser::new(vec![tok(TokenKind::Eol, 0)], kani::any(), kani::any());
+    let t = Token { kind: TokenKind::Group, value: Rc::from("M"), position: Position::new(kani::any(), kani::any(), 0, 1) };
+    let r = p.group_to_matrix(&t);
+    assert!(matches!(r, Err(RuleSyntaxError::UnknownGrouping(_))), "undocumented capital is not a group");
+}
+
+//% props=C12 tier=quick kind=P timeout=900 pair=Parser::group_to_matrix clause="group letter N == +Consonantal +Sonorant -Syllabic -Approximant +Nasal"
+#[kani::proof]
+#[kani::unwind(30)]
+fn k12_rule_group_N() {
+    let p = Parser::new(vec![tok(TokenKind::Eol, 0)], kani::any(), kani::any());
+    let t = Token { kind: TokenKind::Group, value: Rc::from("N"), position: Position::new(kani::any(), kani::any(), 0, 1) };
+    let r = p.group_to_matrix(&t);
+    let want: [Option<ModKind>; 26] = [P, P, N, None, N, None, P, None, None, None, None, None, None, None, None, None, None, None, None, None, None, None, None, None, None, None];
+    match r {
+        Ok(Item { kind: ParseElement::Matrix(m, None), .. }) => {
+            assert!(m.feats == want, "group letter = exactly the matrix the manual tabulates (every one of the 26 slots)");
+            assert!(m.nodes == [None; 8] && m.suprs == SupraSegs::new(), "a group names no node and no suprasegmental");
+        }
+        _ => assert!(false, "documented group letter must be accepted"),
+    }
+}
+
+//% props=C12 tier=quick kind=P timeout=900 pair=Parser::group_to_matrix clause="group letter O == +Consonantal -Sonorant -Syllabic"
+#[kani::proof]
+#[kani::unwind(30)]
+fn k12_rule_group_O() {
+    let p = Parser::new(vec![tok(TokenKind::Eol, 0)], kani::any(), kani::any());
+    let t = Token { kind: TokenKind::Group, value: Rc::from("O"), position: Position::new(kani::any(), kani::any(), 0, 1) };
+    let r = p.group_to_matrix(&t);
+    let want: [Option<ModKind>; 26] = [P, N, N, None, None, None, None, None, None, None, None, None, None, None, None, None, None, None, None, None, None, None, None, None, None, None];
+    match r {
+        Ok(Item { kind: ParseElement::Matrix(m, None), .. }) => {
+            assert!(m.feats == want, "group letter = exactly the matrix the manual tabulates (every one of the 26 slots)");
+            assert!(m.nodes == [None; 8] && m.suprs == SupraSegs::new(), "a group names no node and no suprasegmental");
+        }
+        _ => assert!(false, "documented group letter must be accepted"),
+    }
+}
+
+//% props=C12 tier=quick kind=P timeout=900 pair=Parser::group_to_matrix clause="group letter P == +Consonantal -Sonorant -Syllabic -DelayedRelease -Continuant"
+#[kani::proof]
+#[kani::unwind(30)]
+fn k12_rule_group_P() {
+    let p = Parser::new(vec![tok(TokenKind::Eol, 0)], kani::any(), kani::any());
+    let t = Token { kind: TokenKind::Group, value: Rc::from("P"), position: Position::new(kani::any(), kani::any(), 0, 1) };
+    let r = p.group_to_matrix(&t);
+    let want: [Option<ModKind>; 26] = [P, N, N, N, None, None, None, N, None, None, None, None, None, None, None, None, None, None, None, None, None, None, None, None, None, None];
+    match r {
+        Ok(Item { kind: ParseElement::Matrix(m, None), .. }) => {
+            assert!(m.feats == want, "group letter = exactly the matrix the manual tabulates (every one of the 26 slots)");
+            assert!(m.nodes == [None; 8] && m.suprs == SupraSegs::new(), "a group names no node and no suprasegmental");
+        }
+        _ => assert!(false, "documented group letter must be accepted"),
+    }
+}
+
+//% props=C12 tier=quick kind=P timeout=900 pair=Parser::group_to_matrix clause="capital Q is not a documented group and is rejected"
+#[kani::proof]
+#[kani::unwind(30)]
+fn k12_rule_group_Q() {
+    let p = Parser::new(vec![tok(TokenKind::Eol, 0)], kani::any(), kani::any());
+    let t = Token { kind: TokenKind::Group, value: Rc::from("Q"), position: Position::new(kani::any(), kani::any(), 0, 1) };
+    let r = p.group_to_matrix(&t);
+    assert!(matches!(r, Err(RuleSyntaxError::UnknownGrouping(_))), "undocumented capital is not a group");
+}
+
+//% props=C12 tier=quick kind=P timeout=900 pair=Parser::group_to_matrix clause="capital R is not a documented group and is rejected"
+#[kani::proof]
+#[kani::unwind(30)]
+fn k12_rule_group_R() {
+    let p = Parser::new(vec![tok(TokenKind::Eol, 0)], kani::any(), kani::any());
+    let t = Token { kind: TokenKind::Group, value: Rc::from("R"), position: Position::new(kani::any(), kani::any(), 0, 1) };
+    let r = p.group_to_matrix(&t);
+    assert!(matches!(r, Err(RuleSyntaxError::UnknownGrouping(_))), "undocumented capital is not a group");
+}
+
+//% props=C12 tier=quick kind=P timeout=900 pair=Parser::group_to_matrix clause="group letter S == +Consonantal +Sonorant -Syllabic"
+#[kani::proof]
+#[kani::unwind(30)]
+fn k12_rule_group_S() {
+    let p = Parser::new(vec![tok(TokenKind::Eol, 0)], kani::any(), kani::any());
+    let t = Token { kind: TokenKind::Group, value: Rc::from("S"), position: Position::new(kani::any(), kani::any(), 0, 1) };
+    let r = p.group_to_matrix(&t);
+    let want: [Option<ModKind>; 26] = [P, P, N, None, None, None, None, None, None, None, None, None, None, None, None, None, None, None, None, None, None, None, None, None, None, None];
+    match r {
+        Ok(Item { kind: ParseElement::Matrix(m, None), .. }) => {
+            assert!(m.feats == want, "group letter = exactly the matrix the manual tabulates (every one of the 26 slots)");
+            assert!(m.nodes == [None; 8] && m.suprs == SupraSegs::new(), "a group names no node and no suprasegmental");
+        }
+        _ => assert!(false, "documented group letter must be accepted"),
+    }
+}
+
+//% props=C12 tier=quick kind=P timeout=900 pair=Parser::group_to_matrix clause="capital T is not a documented group and is rejected"
+#[kani::proof]
+#[kani::unwind(30)]
+fn k12_rule_group_T() {
+    let p = Parser::new(vec![tok(TokenKind::Eol, 0)], kani::any(), kani::any());
+    let t = Token { kind: TokenKind::Group, value: Rc::from("T"), position: Position::new(kani::any(), kani::any(), 0, 1) };
+    let r = p.group_to_matrix(&t);
+    assert!(matches!(r, Err(RuleSyntaxError::UnknownGrouping(_))), "undocumented capital is not a group");
+}
+
+//% props=C12 tier=quick kind=P timeout=900 pair=Parser::group_to_matrix clause="capital U is not a documented group and is rejected"
+#[kani::proof]
+#[kani::unwind(30)]
+fn k12_rule_group_U() {
+    let p = Parser::new(vec![tok(TokenKind::Eol, 0)], kani::any(), kani::any());
+    let t = Token { kind: TokenKind::Group, value: Rc::from("U"), position: Position::new(kani::any(), kani::any(), 0, 1) };
+    let r = p.group_to_matrix(&t);
+    assert!(matches!(r, Err(RuleSyntaxError::UnknownGrouping(_))), "undocumented capital is not a group");
+}
+
+//% props=C12 tier=quick kind=P timeout=900 pair=Parser::group_to_matrix clause="group letter V == -Consonantal +Sonorant +Syllabic"
+#[kani::proof]
+#[kani::unwind(30)]
+fn k12_rule_group_V() {
+    let p = Parser::new(vec![tok(TokenKind::Eol, 0)], kani::any(), kani::any());
+    let t = Token { kind: TokenKind::Group, value: Rc::from("V"), position: Position::new(kani::any(), kani::any(), 0, 1) };
+    let r = p.group_to_matrix(&t);
+    let want: [Option<ModKind>; 26] = [N, P, P, None, None, None, None, None, None, None, None, None, None, None, None, None, None, None, None, None, None, None, None, None, None, None];
+    match r {
+        Ok(Item { kind: ParseElement::Matrix(m, None), .. }) => {
+            assert!(m.feats == want, "group letter = exactly the matrix the manual tabulates (every one of the 26 slots)");
+            assert!(m.nodes == [None; 8] && m.suprs == SupraSegs::new(), "a group names no node and no suprasegmental");
+        }
+        _ => assert!(false, "documented group letter must be accepted"),
+    }
+}
+
+//% props=C12 tier=quick kind=P timeout=900 pair=Parser::group_to_matrix clause="capital W is not a documented group and is rejected"
+#[kani::proof]
+#[kani::unwind(30)]
+fn k12_rule_group_W() {
+    let p = Parser::new(vec![tok(TokenKind::Eol, 0)], kani::any(), kani::any());
+    let t = Token { kind: TokenKind::Group, value: Rc::from("W"), position: Position::new(kani::any(), kani::any(), 0, 1) };
+    let r = p.group_to_matrix(&t);
+    assert!(matches!(r, Err(RuleSyntaxError::UnknownGrouping(_))), "undocumented capital is not a group");
+}
+
+//% props=C12 tier=quick kind=P timeout=900 pair=Parser::group_to_matrix clause="capital X is not a documented group and is rejected"
+#[kani::proof]
+#[kani::unwind(30)]
+fn k12_rule_group_X() {
+    let p = Parser::new(vec![tok(TokenKind::Eol, 0)], kani::any(), kani::any());
+    let t = Token { kind: TokenKind::Group, value: Rc::from("X"), position: Position::new(kani::any(), kani::any(), 0, 1) };
+    let r = p.group_to_matrix(&t);
+    assert!(matches!(r, Err(RuleSyntaxError::UnknownGrouping(_))), "undocumented capital is not a group");
+}
+
+//% props=C12 tier=quick kind=P timeout=900 pair=Parser::group_to_matrix clause="capital Y is not a documented group and is rejected"
+#[kani::proof]
+#[kani::unwind(30)]
+fn k12_rule_group_Y() {
+    let p = Parser::new(vec![tok(TokenKind::Eol, 0)], kani::any(), kani::any());
+    let t = Token { kind: TokenKind::Group, value: Rc::from("Y"), position: Position::new(kani::any(), kani::any(), 0, 1) };
+    let r = p.group_to_matrix(&t);
+    assert!(matches!(r, Err(RuleSyntaxError::UnknownGrouping(_))), "undocumented capital is not a group");
+}
+
+//% props=C12 tier=quick kind=P timeout=900 pair=Parser::group_to_matrix clause="capital Z is not a documented group and is rejected"
+#[kani::proof]
+#[kani::unwind(30)]
+fn k12_rule_group_Z() {
+    let p = Parser::new(vec![tok(TokenKind::Eol, 0)], kani::any(), kani::any());
+    let t = Token { kind: TokenKind::Group, value: Rc::from("Z"), position: Position::new(kani::any(), kani::any(), 0, 1) };
+    let r = p.group_to_matrix(&t);
+    assert!(matches!(r, Err(RuleSyntaxError::UnknownGrouping(_))), "undocumented capital is not a group");
 }
